@@ -207,6 +207,7 @@ EnBracket(t, c, q, p) ==
     LET x == c.w[q]  j == c.mt[q]  ts == BrStyle(p)  td == BrDelim(p) IN
     /\ x.k = "open" /\ ~Opq(t, c, q)                                                 \* E1
     /\ j # 0 /\ Role(c, q) = "grp"                                                   \* E8
+    /\ ~Opq(t, c, j)                                                                 \* E1 (closing bracket)
     /\ StmtKind(c, q) # "br"                                                         \* E10
     /\ ~c.als[q]                                                                     \* E12
     /\ (ts = 0 => ~(j = q + 2 /\ c.w[q + 1].k = "reg"))                              \* E9
